@@ -108,6 +108,7 @@ class Model {
   bool has_next_cfg = false;
   Limits lim_next;
   std::set<std::string> activatable_next;
+  int dying_addressee = -1;           // set while the NameLost for a departing connection's unique name is emitted
   int cfg_gen = 0;
   bool cfg_unspecified = false;       // between a half-done reload (listed finding) and its retry
   // C19: a pending activation: who waits, in arrival order
@@ -158,7 +159,7 @@ class Model {
   // every monitor whose filter matches gets one copy (before any policy decision)
   void capture(int sender, const wire::Msg &m, int addressed, bool optional = false, bool floating = false);
   void capture_loose(const Exp &orig, int addressed, bool floating = false);
-  void monitors_may_see_refusal(int sender, const wire::Msg &m);
+  void monitors_may_see_refusal(int sender, const wire::Msg &m, const char *errname = nullptr);
   int bus_may_deliver(int recipient, const wire::Msg &m);   // 0 no, 1 yes, 2 not determined (queue may have filled meanwhile)   // receive policy of the recipient for a bus-originated message
   void emit_from_bus(int recipient, Exp e, bool floating = false);
   void emit_broadcast_from_bus(const wire::Msg &sig);
